@@ -11,7 +11,7 @@ def run():
     n_shards = 12 if thorough else 8
     per = 5000 if thorough else 450
     termlib.mc_slices(c, thorough)
-    shards, n_w = termlib.witness_cases(c, 4, "all" if False else (3 if thorough else 1), c.seed, max_cases=400000 if thorough else 60000)
+    shards, n_w = termlib.witness_cases(c, 12 if thorough else 4, 3 if thorough else 1, c.seed, max_cases=150000 if thorough else 60000)
     c.extra["witness_cases"] = n_w
     for i in range(n_shards):
         args = ["--gen", per, "--gen-from", i * per, "--seed", c.seed]
@@ -25,7 +25,7 @@ def run():
     c.extra["cases"] = sum(int(r.get("r4", 0)) for r in c.reports)
     c.extra["distinct_nontrivial"] = c.extra["cases"]
     c.extra["model_steps"] = sum(int(r.get("r7", 0)) for r in c.reports)
-    c.rule = ("R1: MC_Term explores Term.tla exhaustively (all token sequences up to depth 3/4 over five token slices on a 2x2 screen; invariants InScreen, Sane). R2: one TLC witness per coarse class of model states, extended by alphabet tokens, replayed into the real emulations with full cell projection; plus: seeded token streams (control-function table x parameter classes, DCS/OSC/APS/music/macro/sixel strings, front-end lead-ins, random bytes, truncations) "
+    c.rule = ("R1: MC_Term explores Term.tla exhaustively (all token sequences up to depth 3/4 over ten token slices on a 2x2 screen; invariants InScreen, Sane). R2: one TLC witness per coarse class of model states, extended by alphabet tokens, replayed into the real emulations with full cell projection; plus: seeded token streams (control-function table x parameter classes, DCS/OSC/APS/music/macro/sixel strings, front-end lead-ins, random bytes, truncations) "
               "for all ten text emulations, four music options, sizes 1..132 x 1..60 with rows pre-allocated or not; every character is one recorded step judged by Trace_Term "
               "(outcome in {ok, err}; worker aborts are crash events). distinct_nontrivial = number of cases (distinct seeds => distinct streams).")
     c.assumptions = ["panics are caught per character with catch_unwind in a dev-profile build (overflow checks on); aborts/stack overflows kill the worker and are attributed to the running case"]
